@@ -27,6 +27,16 @@ def judge(ck, trace, what):
     r, viols, n = vlib.validate_trace("NifGraphTrace", trace, tag="c04-" + what, stack_mb=512, timeout=6000, heap="16g")
     ck.add_tlc("NifGraphTrace(%s)" % what, r, "SortViol/OptimizeViol/SaveDefaultViol/FileViol on implementation steps")
     ck.cov["traces_validated_against_impl"] += n
+    drifts = {x["drift"] for x in r.records if isinstance(x, dict) and "drift" in x}
+    ck.cov["sorter_transcription_exact_on"] = ck.cov.get("sorter_transcription_exact_on", 0) - len(drifts)
+    if drifts:
+        with open(trace) as f:
+            for i, line in enumerate(f, 1):
+                if i in drifts and len(ck.drift) < 50:
+                    ev = json.loads(line)
+                    ck.note_drift({"what": "NifSort transcription differs from the library", "op": ev.get("op"), "case": ev.get("case"), "names": ev.get("names"),
+                                   "pre": [[b["type"], b["refs"], b["ptrs"], b.get("name", "")] for b in ev["pre"]["blocks"]],
+                                   "post": [[b["type"], b["refs"], b["ptrs"], b.get("name", "")] for b in ev["post"]["blocks"]]})
     if not viols:
         return
     want = {v["viol"]: v for v in viols}
@@ -77,6 +87,8 @@ def run(tier):
         summ = json.loads(out.strip().splitlines()[-1])
         ck.cov.setdefault("graphs", {})[name] = summ
         judge(ck, trace, name)
+        nsort = sum(1 for l in open(trace) if '"op":"Sort' in l or '"op":"ShapeOrder"' in l)
+        ck.cov["sorter_transcription_exact_on"] = ck.cov.get("sorter_transcription_exact_on", 0) + nsort
         n = sum(1 for _ in open(trace))
         ck.cov["evaluations"] += n
         ck._distinct.update(("%s:%d" % (name, i)).encode() for i in range(n))
@@ -86,6 +98,18 @@ def run(tier):
                     ck.sample({"graph": json.loads(line)["g"]["blocks"], "versions": ["FO3", "SSE"]})
         os.remove(states)
         os.remove(trace)
+    # ---- design level: the sorter transcription (NifSort) satisfies the relation on every well-typed acyclic graph, terminates
+    cfg = os.path.join(wd, "nifsort.cfg")
+    open(cfg, "w").write("SPECIFICATION Spec\nCONSTANTS MaxBlocks = 3\n HasSizes = TRUE\n Rich = %s\n Export = FALSE\n Alphabet = \"sort\"\n"
+                         " Corrupt = FALSE\n OnlyAdd = TRUE\n ExportStates = FALSE\n Fuel = 300\n ExportSort = FALSE\n"
+                         "INVARIANT SortTerminates\nINVARIANT SortRefines\nINVARIANT ShapeOrderRefines\nVIEW View\nCHECK_DEADLOCK FALSE\n"
+                         % ("TRUE" if tier == "thorough" else "FALSE"))
+    r = vlib.tlc("NifSortMC", cfg, workers=12, timeout=6000, tag="c04-nifsort", heap="16g")
+    ck.add_tlc("NifSortMC(design)", r, "sorter transcription: SortViol = {} and idempotent on well-typed acyclic graphs, SetShapeOrder with every name list, termination")
+    if r.rc != 0:
+        # the transcription is compared with the library on the same graphs above (drift); a model-level failure with an exact
+        # transcription would have shown as a rejection of the library's own result there
+        ck.note_drift({"what": "NifSortMC: the sorter transcription violates %s in the model" % r.violated})
     ck.cov["exhaustive"] = True
     ck.assumptions += ["C04 quantifies over well-typed acyclic graphs; ill-typed, cyclic and dangling references are C15's fault space",
                        "bounds are recomputed before the pre-snapshot so that content ids compare field values other than bounds",
